@@ -6,7 +6,9 @@ parser used here (Python's ast and tree-sitter count only \\n, and the orchestra
 but is a line break to str.splitlines().  So
  L1 text looked up by a reported (parser-model) line number must not come from str.splitlines();
  L2 reported line numbers must not be produced by enumerating str.splitlines();
- L3 the orchestrator's own line view (FileLintContext.file_lines) splits on "\\n".
+ L3 the orchestrator's own line view (FileLintContext.file_lines) splits on "\\n";
+ L4 the lookup of a reported line is arithmetically exact for every line 1..n;
+ L5 the SRP lines-of-code counters ignore blank/whitespace-only/comment lines in all three languages.
 Not decided: everything else in the statement (renaming, re-indentation, CRLF/BOM, appended code) - these are
 relations between two runs over program pairs and out of reach of a static argument here.
 """
@@ -39,4 +41,83 @@ def check(run, ctx):
     glc = repo.func("src.core.linter_utils.get_line_context")
     ok = any(isinstance(n, ast.Call) and call_name(n) == "split" and n.args and isinstance(n.args[0], ast.Constant) and n.args[0].value == "\n" for n in ast.walk(glc.node))
     (run.ok(L3, "get_line_context", "code.split('\\n')[row]") if ok else run.finding(L3, "get_line_context", "line-model", "get_line_context (indexed by a tree-sitter row) no longer splits on '\\n'", glc.loc))
+    L4 = run.rule("L4", "line lookup arithmetic: text for reported line L of an n-line file is lines[L-1] for every 1 <= L <= n (no maxsplit on the split, guard rejects only L < 1 or L > n)", floor=5,
+                  decides="a finding on the last line (file without trailing newline) is looked up like any other; appending code after it changes nothing")
+    for rec in shared.line_model_sites(ctx):
+        if rec.get("positional") != "lookup":
+            continue
+        f = repo.funcs[rec["fq"]]
+        v = _lookup_arithmetic(f)
+        if v is True:
+            run.ok(L4, rec["func"], "guard and index give lines[L-1] for L in 1..n")
+        elif v is None:
+            run.ok(L4, rec["func"], "lookup delegated / shape not a direct index (covered at the callee)", nontrivial=False)
+        else:
+            run.finding(L4, rec["func"], f"lookup-arithmetic:{v}", f"{rec['func']}: {v}: the text of the reported line is not found for some valid line number (typically the last line of a file without trailing newline)", rec["loc"])
+    L5 = run.rule("L5", "the lines-of-code counters ignore blank, whitespace-only and comment lines in every language", floor=3,
+                  decides="inserting blank lines or adding trailing whitespace never changes an SRP verdict")
+    for rec in shared.loc_counters(ctx):
+        (run.ok(L5, rec["func"], rec["detail"]) if rec["ok"] else run.finding(L5, rec["func"], "blank-lines-counted", f"{rec['func']}: {rec['detail']}", rec["loc"]))
     return __doc__
+
+
+def _lookup_arithmetic(f):
+    """Check `lines = X.split("\n"[, maxsplit])`, guards on len(lines) and the index expression, for n=3."""
+    lines_var = None
+    for n in ast.walk(f.node):
+        if isinstance(n, ast.Assign) and isinstance(n.value, ast.Call) and call_name(n.value) in ("split", "splitlines") and len(n.targets) == 1 and isinstance(n.targets[0], ast.Name):
+            lines_var = n.targets[0].id
+            if call_name(n.value) == "split" and (len(n.value.args) > 1 or n.value.keywords):
+                return f"split with maxsplit ({ast.unparse(n.value)}) truncates the line list"
+    if lines_var is None:
+        return None
+    idx = next((n for n in ast.walk(f.node) if isinstance(n, ast.Subscript) and isinstance(n.value, ast.Name) and n.value.id == lines_var and not isinstance(n.slice, ast.Slice)), None)
+    if idx is None:
+        return None
+    guards = [n.test for n in ast.walk(f.node) if isinstance(n, ast.If) and f"len({lines_var})" in ast.unparse(n.test) and any(isinstance(s, ast.Return) for s in n.body)]
+    line_names = sorted({x.id for x in ast.walk(idx.slice) if isinstance(x, ast.Name)} | {ast.unparse(x) for x in ast.walk(idx.slice) if isinstance(x, ast.Attribute)})
+    if len(line_names) != 1:
+        return None
+    LN = line_names[0]
+
+    def ev(e, L, n_):
+        if isinstance(e, ast.Constant):
+            return e.value
+        if ast.unparse(e) == LN:
+            return L
+        if isinstance(e, ast.Call) and call_name(e) == "len":
+            return n_
+        if isinstance(e, ast.BinOp) and isinstance(e.op, (ast.Add, ast.Sub)):
+            a, b = ev(e.left, L, n_), ev(e.right, L, n_)
+            return a + b if isinstance(e.op, ast.Add) else a - b
+        if isinstance(e, ast.BoolOp):
+            vals = [ev(v, L, n_) for v in e.values]
+            return any(vals) if isinstance(e.op, ast.Or) else all(vals)
+        if isinstance(e, ast.UnaryOp) and isinstance(e.op, ast.Not):
+            return not ev(e.operand, L, n_)
+        if isinstance(e, ast.Compare):
+            vals = [ev(e.left, L, n_)] + [ev(c, L, n_) for c in e.comparators]
+            ok = True
+            for op, a, b in zip(e.ops, vals, vals[1:]):
+                ok = ok and {ast.Lt: a < b, ast.LtE: a <= b, ast.Gt: a > b, ast.GtE: a >= b, ast.Eq: a == b, ast.NotEq: a != b}[type(op)]
+            return ok
+        raise ValueError(ast.unparse(e))
+
+    # guards may also be written positively: `if 0 <= i < len(lines): return lines[i]`
+    pos_guards = [n.test for n in ast.walk(f.node) if isinstance(n, ast.If) and f"len({lines_var})" in ast.unparse(n.test) and any(x is idx for s_ in n.body for x in ast.walk(s_))]
+    guards = [g for g in guards if not any(g is p for p in pos_guards)]
+    try:
+        n_ = 3
+        row_based = ev(idx.slice, 1, n_) == 1  # lines[i]: the parameter is a 0-based row
+        valid = (0, 1, 2) if row_based else (1, 2, 3)
+        for L in valid:
+            if any(ev(g, L, n_) for g in guards):
+                return f"guard `{ast.unparse(guards[0])}` rejects valid {'row' if row_based else 'line'} {L} of a {n_}-line file"
+            if pos_guards and not all(ev(g, L, n_) for g in pos_guards):
+                return f"guard `{ast.unparse(pos_guards[0])}` rejects valid {'row' if row_based else 'line'} {L} of a {n_}-line file"
+            want = L if row_based else L - 1
+            if ev(idx.slice, L, n_) != want:
+                return f"index `{ast.unparse(idx.slice)}` selects element {ev(idx.slice, L, n_)} for {'row' if row_based else 'line'} {L}"
+    except (ValueError, KeyError, TypeError):
+        return None
+    return True
